@@ -1,12 +1,21 @@
 from vf import Query
 from props import units_l2 as UL
 FN = ['debugger/interpreter.cpp: StepScript(InterpreterEnv&)', 'debugger/interpreter.cpp: RewindScript', 'debugger/interpreter.cpp: ContinueScript', 'debugger/interpreter.cpp: InterpreterEnv::InterpreterEnv',
-      'script/interpreter.cpp: ScriptExecutionEnvironment::ScriptExecutionEnvironment', 'instance.cpp: Instance::step / rewind / at_start / at_end', 'instance.cpp: Instance::eval (execution loop)', 'script/script.cpp: CScript::IsPayToScriptHash', 'script/interpreter.cpp: CastToBool']
+      'script/interpreter.cpp: ScriptExecutionEnvironment::ScriptExecutionEnvironment', 'instance.cpp: Instance::step / rewind / at_start / at_end', 'instance.cpp: Instance::eval (execution loop)', 'instance.cpp: Instance::setup_environment (second half: session creation and hand-over)', 'script/script.cpp: CScript::IsPayToScriptHash', 'script/interpreter.cpp: CastToBool']
 BASE = ['VERIF_STACK_W=2', 'VERIF_ITEM_CAP=8', 'VERIF_SCRIPT_CAP=24']
-def q(name, entry, extra=(), unwind=34, **kw):
-    return Query(name, 'harness', UL.unit_l2, entry, defines=BASE + list(extra), unwind=unwind, timeout=1500, object_bits=12, functions=FN,
+def q(name, entry, extra=(), unwind=34, replay=None, **kw):
+    return Query(name, 'harness', UL.unit_l2, entry, defines=BASE + list(extra), unwind=unwind, timeout=1500, object_bits=12, functions=FN, replay=replay,
                  bounded='session-layer model: stack window 2 items of 8 bytes, scripts of at most 24 stored bytes (the session code copies and compares these values, it does not compute on them)', **kw)
-REWIND_ROUNDTRIP = q('l2_rewind_roundtrip', 'h_l2_rewind_roundtrip')
+def _args_l2(inp, q):
+    import re
+    def _i(v):
+        if isinstance(v, int): return v
+        m = re.search(r'-?\d+', str(v)); return int(m.group(0)) if m else 0
+    if 'l2_flags' not in inp: return None
+    return [f"flags={_i(inp['l2_flags'])}", f"sv={_i(inp.get('l2_sv', 0))}"]
+REPLAY_L2 = {'driver': 'replay/l2_replay.cpp', 'args': _args_l2, 'premake': ['libbitcoin.a', 'libbitcoin_deb.a'],
+             'libs': ['-Wl,--start-group', '{REPO}/libbitcoin_deb.a', '{REPO}/libbitcoin.a', '{REPO}/secp256k1/.libs/libsecp256k1.a', '-Wl,--end-group']}
+REWIND_ROUNDTRIP = q('l2_rewind_roundtrip', 'h_l2_rewind_roundtrip', replay=REPLAY_L2)
 REWIND_REFUSED = q('l2_rewind_refused', 'h_l2_rewind_refused')
 STEP_FAILED = q('l2_step_failed', 'h_l2_step_failed')
 END_OF_SCRIPT = q('l2_end_of_script', 'h_l2_end_of_script')
@@ -18,4 +27,5 @@ INSTANCE_STEP = q('l2_instance_step', 'h_l2_instance_step', ['L2_STUB_SESSION_ST
 EVAL = Query('l2_eval', 'harness', UL.unit_l2, 'h_l2_eval', defines=['VERIF_STACK_W=2', 'VERIF_ITEM_CAP=8', 'VERIF_SCRIPT_CAP=6'], unwind=10, timeout=1500, object_bits=12, functions=FN,
              bounded='exec lists of at most 6 encoded bytes (each operation advances by >= 1 byte)')
 COMMITMENT = q('l2_commitment', 'h_l2_commitment')
-ALL = [COMMITMENT, REWIND_ROUNDTRIP, REWIND_REFUSED, STEP_FAILED, END_OF_SCRIPT, CTOR, CONTINUE, INSTANCE_STEP, EVAL]
+SETUP = q('l2_setup', 'h_l2_setup')
+ALL = [COMMITMENT, SETUP, REWIND_ROUNDTRIP, REWIND_REFUSED, STEP_FAILED, END_OF_SCRIPT, CTOR, CONTINUE, INSTANCE_STEP, EVAL]
